@@ -144,6 +144,10 @@ func init() {
 						return max - uint64(r.intn(3)) // exhausted (or nearly) from the start
 					case 4:
 						return r.u64() >> uint(r.intn(40))
+					case 5:
+						return 1<<32 - total/2 - uint64(r.intn(3)) // crosses 2^32 (a counter cut to 32 bits would repeat)
+					case 6:
+						return 1<<63 - total/2
 					}
 					return uint64(r.intn(1000))
 				}
